@@ -169,6 +169,7 @@ class Interp(ExprMixin, LoopMixin, CallMixin):
     def choose(self, n, label=''):
         """Pick one of n alternatives (0 first); schedule the others."""
         if self.nofork:
+            self.assumed = getattr(self, 'assumed', 0) + 1
             return None
         if self.cursor < len(self.prefix):
             c = self.prefix[self.cursor]
@@ -564,6 +565,14 @@ class Interp(ExprMixin, LoopMixin, CallMixin):
 
     def set_attr(self, obj, name, v, node, aug=False):
         if isinstance(obj, ObjV):
+            if 'global' in obj.tags:
+                self.event('mutate-shared', node, target=obj, how=f'attribute {name}')
+            r = obj.cls.lookup(name) if name not in obj.fields else None
+            if r is not None and r[0] == 'attr':
+                d = self.class_attr(r[2], name, r[1])
+                if isinstance(d, ObjV) and d.cls.lookup('__set__') is not None and d.cls.lookup('__set__')[0] == 'method':
+                    self.call_function(d.cls.lookup('__set__')[1], [obj, v], {}, self_obj=d, node=node)
+                    return
             old = obj.fields.get(name)
             obj.fields[name] = v
             self.event('setattr', node, obj=obj, attr=name, value=v, old=old, aug=aug)
